@@ -215,10 +215,14 @@ def run_impl(alpha, ops, reserved):
                 nil = nil.copy()
             elif k == "ccopy":
                 nil = copy.copy(nil)
-            elif k == "deepcopy":
-                nil = copy.deepcopy(nil)
-            elif k == "pickle":
-                nil = pickle.loads(pickle.dumps(nil))
+            elif k in ("deepcopy", "pickle"):
+                # the items refer to the list which holds them (as rows refer to their table): the copy is a list of
+                # copies which refer to the copy
+                for x in nil:
+                    x.owner = nil
+                nil = copy.deepcopy(nil) if k == "deepcopy" else pickle.loads(pickle.dumps(nil))
+                if any(getattr(x, "owner", None) is not nil for x in nil):
+                    bad = bad or (step, f"after {k} the items do not refer to the list they are in")
         except ValueError:
             oc = 1
         except IndexError:
